@@ -180,6 +180,7 @@ func c20Harness(maxTrips int) Harness {
 		}
 		if after := dumpJournal(j); after != before {
 			c.Fail("journal-modified", "exporting modified the journal:\n%s", diffLines(before, after))
+			return
 		}
 		c.Outcome(string(exp.TripsCsv) + "\x00" + string(exp.StopTimesCsv))
 		_, trows, err := readTable(exp.TripsCsv)
